@@ -321,14 +321,48 @@ func runCheck(o *checkOpts) int {
 			sigs = append(sigs, s)
 		}
 		sort.Strings(sigs)
+		hasPerm := func(v *Vector) bool {
+			for _, x := range v.Values {
+				if x.Kind == "perm" {
+					return true
+				}
+			}
+			return false
+		}
+		var runList []*Vector
+		copies := map[int][]int{} // candidate id -> ids of its extra copies
 		for _, s := range sigs {
 			for _, v := range res.viols.bySig[s] {
 				v.vec.ID = id
 				id++
 				cands = append(cands, v.vec)
+				runList = append(runList, v.vec)
+				if hasPerm(v.vec) {
+					// the Go runtime picks its own map order: try the vector several times
+					for k := 0; k < 24; k++ {
+						c := *v.vec
+						c.ID = id
+						id++
+						copies[v.vec.ID] = append(copies[v.vec.ID], c.ID)
+						runList = append(runList, &c)
+					}
+				}
 			}
 		}
-		nat := runBatch(bin, cands, 10*time.Second)
+		nat := runBatch(bin, runList, 10*time.Second)
+		for orig, ids := range copies {
+			if r := nat[orig]; r != nil && r.Outcome != "ok" {
+				continue
+			}
+			for _, cid := range ids {
+				if r := nat[cid]; r != nil && r.Outcome != "ok" && r.Outcome != "assume" && r.Outcome != "vector" {
+					rr := *r
+					rr.ID = orig
+					nat[orig] = &rr
+					break
+				}
+			}
+		}
 		head := repoHead()
 		reported := map[string]bool{}
 		for _, v := range cands {
@@ -390,6 +424,9 @@ func runCheck(o *checkOpts) int {
 			}
 			if ok {
 				validated++
+			} else if hasPerm && r != nil && r.Outcome == "assert" {
+				// the native run took a map order of its own; its failure, if real,
+				// is found by the engine on the path with that order
 			} else {
 				validateMismatch++
 				oc := "none"
